@@ -78,6 +78,8 @@ class Model:
         self.w0 = U.si('AngularSpeed', *m['w0'])
         self.i0 = U.si('Current', *m['i0']) if m.get('i0') is not None else None
         self.imax = U.si('Current', *m['imax']) if m.get('imax') is not None else None
+        if self.i0 is None or self.imax is None:
+            self.i0 = self.imax = None          # current data is used only when both values are given
         flags = [self_locking_flag(self.elements[i - 1], self.elements[i])
                  for i in range(1, self.n) if self.elements[i]['link']['kind'] == 'worm']
         self.locking_ambiguous = any(f is None for f in flags)
